@@ -608,6 +608,9 @@ vbi_draw_vt_page_region(vbi_page *pg,
 	        vbi_rgba        rgba[64];
 	        uint8_t         pal8[64];
         } pen;
+	vbi_rgba scratch[2 * TCW * TCH];
+	uint8_t *dst;
+	int dst_stride;
 	int count, row_adv;
 	int conceal, off, unicode;
 	vbi_char *ac;
@@ -666,27 +669,43 @@ vbi_draw_vt_page_region(vbi_page *pg,
                                 pen.rgba[1] = pg->color_map[ac->foreground];
                         }
 
+			dst = canvas;
+			dst_stride = rowstride;
+
 			switch (ac->size) {
 			case VBI_OVER_TOP:
 			case VBI_OVER_BOTTOM:
 				break;
+
+			case VBI_DOUBLE_WIDTH:
+			case VBI_DOUBLE_SIZE:
+			case VBI_DOUBLE_SIZE2:
+				if (1 == count) {
+					/* The right half of the character lies
+					   outside the region, draw into a scratch
+					   buffer and copy only the left half. */
+					dst = (uint8_t *) scratch;
+					dst_stride = 2 * TCW * canvas_type;
+				}
+
+				/* fall through */
 
 			default:
 				if (vbi_is_drcs(unicode)) {
 					uint8_t *font = pg->drcs[(unicode >> 6) & 0x1F];
 
 					if (font)
-						draw_drcs(canvas_type, canvas, rowstride,
+						draw_drcs(canvas_type, dst, dst_stride,
 							  (uint8_t *) &pen, ac->drcs_clut_offs,
 							  font, unicode & 0x3F, ac->size);
 					else /* shouldn't happen */
-						draw_blank(canvas_type, canvas, rowstride,
+						draw_blank(canvas_type, dst, dst_stride,
 							   ((canvas_type == 1) ? pen.pal8[0]: pen.rgba[0]),
                                                            TCW, TCH);
 				} else {
 					draw_char (canvas_type,
-						   canvas,
-						   rowstride,
+						   dst,
+						   dst_stride,
 						   (uint8_t *) &pen,
 						   (uint8_t *) wstfont2_bits,
 						   TCPL, TCW, TCH,
@@ -694,6 +713,14 @@ vbi_draw_vt_page_region(vbi_page *pg,
 						   ac->bold,
 						   ac->underline << 9 /* cell row 9 */,
 						   ac->size);
+				}
+
+				if (dst != (uint8_t *) canvas) {
+					for (i = 0; i < TCH; i++)
+						memcpy ((uint8_t *) canvas
+							+ i * rowstride,
+							dst + i * dst_stride,
+							TCW * canvas_type);
 				}
 			}
 
